@@ -113,6 +113,11 @@ func walkSetup(env *vlib.Env, h int) (*smchain.Universe, smchain.Genesis, *smcha
 		g.Threshold = uint64(17 + r.Intn(4))
 		opts.Targeted = ""
 	}
+	if h%16 == 9 && len(g.Keypers) >= 2 {
+		// a genesis file that names a keyper twice (operator slip): whatever the application makes
+		// of it, every replica must make the same
+		g.Keypers = append(g.Keypers, g.Keypers[0], g.Keypers[1])
+	}
 	gen := smchain.NewGen(u, g, r.Split(), opts)
 	if h%16 == 5 {
 		gen.ExtendGammas(24)
@@ -167,6 +172,9 @@ func runWalk(env *vlib.Env, h int, rep *vlib.Reporter, nrep int, primary bool) {
 	}
 	if h%16 == 5 {
 		rep.Obs("large_threshold_histories", 1)
+	}
+	if h%16 == 9 {
+		rep.Obs("histories_with_a_repeated_genesis_keyper", 1)
 	}
 	for b := 0; b < nblocks; b++ {
 		var txs []smchain.Tx
